@@ -818,6 +818,91 @@ class State:
                 s.sym[p] = ("b", ("guarded", tuple(fb), tuple(fa)))
         return s
 
+    def prune_dead(self, live, nparams):
+        """drop what is only about dead temporaries: locals that are not live here, are not parameters / the return place,
+        and are not referenced (pointer, alias, condition, remembered sum) by anything that is kept.  Before a dead term
+        goes, the relations it mediates between two kept terms are composed (a - d <= c1, d - b <= c2  =>  a - b <= c1 + c2)."""
+        if self.bottom:
+            return
+
+        def root_ok(r):
+            return not isinstance(r, int) or r <= nparams or r in keep
+        keep = set(live)
+        # closure over what kept places mention
+        changed = True
+        while changed:
+            changed = False
+            for p, v in self.sym.items():
+                if root_ok(p[0]):
+                    for q in val_places(v):
+                        if isinstance(q[0], int) and q[0] > nparams and q[0] not in keep:
+                            keep.add(q[0])
+                            changed = True
+                    for ip in ix_places(p):
+                        if isinstance(ip[0], int) and ip[0] > nparams and ip[0] not in keep:
+                            keep.add(ip[0])
+                            changed = True
+            for p, ab in self.lin.items():
+                if root_ok(p[0]):
+                    for x in ab[:2]:
+                        if x[1] is not None:
+                            q = term_place(x[1])
+                            if isinstance(q[0], int) and q[0] > nparams and q[0] not in keep:
+                                keep.add(q[0])
+                                changed = True
+
+        def dead_term(t):
+            pl = term_place(t)
+            if not root_ok(pl[0]):
+                return True
+            for ip in ix_places(pl):
+                if not root_ok(ip[0]):
+                    return True
+            return False
+        terms = set(self.iv)
+        for k in self.rel:
+            terms.add(k[0])
+            terms.add(k[1])
+        dead = {t for t in terms if dead_term(t)}
+        if dead:
+            if self.rel:
+                # eliminate the dead terms one after the other (so that chains through several dead terms are composed too)
+                succ_, pred_ = {}, {}
+                for (a, b), c in self.rel.items():
+                    succ_.setdefault(a, {})[b] = c
+                    pred_.setdefault(b, {})[a] = c
+                for d in sorted(dead, key=repr):
+                    ia = pred_.pop(d, {})
+                    ob = succ_.pop(d, {})
+                    ia.pop(d, None)
+                    ob.pop(d, None)
+                    iv_d = self.iv.get(d, FULL)
+                    for a, c1 in ia.items():
+                        succ_.get(a, {}).pop(d, None)
+                        if iv_d[1] is not None and a not in dead:
+                            self.set_iv(a, None, iv_d[1] + c1)
+                    for b, c2 in ob.items():
+                        pred_.get(b, {}).pop(d, None)
+                        if iv_d[0] is not None and b not in dead:
+                            self.set_iv(b, iv_d[0] - c2, None)
+                    if ia and ob and len(ia) * len(ob) <= 100:
+                        for a, c1 in ia.items():
+                            for b, c2 in ob.items():
+                                if a != b:
+                                    cur = succ_.get(a, {}).get(b)
+                                    if cur is None or c1 + c2 < cur:
+                                        succ_.setdefault(a, {})[b] = c1 + c2
+                                        pred_.setdefault(b, {})[a] = c1 + c2
+                self.rel = {(a, b): c for a, m in succ_.items() if a not in dead for b, c in m.items() if b not in dead}
+            for t in [t for t in self.iv if t in dead]:
+                del self.iv[t]
+        for p in [p for p in self.sym if not root_ok(p[0])]:
+            del self.sym[p]
+        if self.lin:
+            self.lin = {p: ab for p, ab in self.lin.items() if root_ok(p[0])}
+        if self.taint:
+            self.taint = frozenset(t for t in self.taint if not dead_term(t))
+
     def meet_facts(self, other):
         """conjunction of two sound descriptions of the same program point: `self` (kept as the base: its aliases, dirty and
         taint sets are sound on their own) strengthened with the intervals, relations, aliases and remembered sums of `other`.
